@@ -14,9 +14,13 @@
 //!      `ordcmp X Y` -> lt|eq|gt         (core Ord/PartialOrd of one type, `==` must agree)
 //!      `numhash X`  -> the sequence of `Hasher::write` calls, one `s:<hex bytes>` per call
 //!      `hasheq X Y` -> true|false       (the two recorded sequences are equal)
+//!      `log2encl X` -> enclosed      (the ESTIMATE-ORACLE HYPOTHESIS of the theorems, checked on the real
+//!                                     estimator: `x.log2_bounds()` = (lb, ub) must satisfy lb <= log2|x| <= ub;
+//!                                     log2|x| is recomputed here in f64 from the top 64 bits, with a tolerance
+//!                                     far below the f32 resolution; a failure prints the numbers)
 //! A pair for which the library has no impl prints `ok nopair` (the model carries the same table).
 #![allow(deprecated, unreachable_patterns)]
-use dashu_base::{AbsEq, AbsOrd};
+use dashu_base::{AbsEq, AbsOrd, BitTest, EstimatedLog2};
 use dashu_float::round::mode;
 use dashu_float::{Context, FBig, Repr};
 use dashu_int::{IBig, UBig};
@@ -535,8 +539,93 @@ fn f_feed(ws: &[Vec<u8>]) -> String {
     }
 }
 
+// ------------------------------------------------------------------------------ estimator hypothesis
+
+/// log2 of a positive integer in f64 (top 64 bits; absolute error < 1e-12 for bit lengths < 2^40)
+fn log2_ubig(x: &UBig) -> f64 {
+    let l = x.bit_len();
+    if l <= 64 {
+        (u64::try_from(x).unwrap() as f64).log2()
+    } else {
+        let top = u64::try_from(&(x >> (l - 64))).unwrap();
+        (top as f64).log2() + (l - 64) as f64
+    }
+}
+
+fn encl_check(lb: f32, ub: f32, v: Option<f64>) -> Res {
+    match v {
+        None => {
+            // zero: log2 = -inf
+            if lb == f32::NEG_INFINITY && !ub.is_nan() {
+                Ok("enclosed".into())
+            } else {
+                Err(format!("violated zero lb={} ub={}", lb, ub))
+            }
+        }
+        Some(v) => {
+            let tol = 1e-9 + 1e-13 * v.abs();
+            let (l, u) = (lb as f64, ub as f64);
+            if l.is_nan() || u.is_nan() || l > v + tol || u < v - tol {
+                Err(format!("violated lb={:e} ub={:e} log2={:e}", l, u, v))
+            } else {
+                Ok("enclosed".into())
+            }
+        }
+    }
+}
+
+fn log2encl(x: &Num) -> Res {
+    fn of_int(x: &IBig) -> Option<f64> {
+        if x.is_zero() {
+            None
+        } else {
+            Some(log2_ubig(&dashu_base::UnsignedAbs::unsigned_abs(x)))
+        }
+    }
+    fn of_float<const B: u64>(a: &FB<B>) -> Result<Option<f64>, String> {
+        let r = a.repr();
+        if r.is_infinite() {
+            return Err("bad-arg log2encl infinite".into());
+        }
+        Ok(of_int(r.significand()).map(|s| s + r.exponent() as f64 * (B as f64).log2()))
+    }
+    match x {
+        Num::U(a) => {
+            let (l, u) = a.log2_bounds();
+            encl_check(l, u, of_int(&IBig::from(a.clone())))
+        }
+        Num::I(a) => {
+            let (l, u) = a.log2_bounds();
+            encl_check(l, u, of_int(a))
+        }
+        Num::F2(a) => {
+            let (l, u) = a.log2_bounds();
+            encl_check(l, u, of_float(a)?)
+        }
+        Num::F10(a) => {
+            let (l, u) = a.log2_bounds();
+            encl_check(l, u, of_float(a)?)
+        }
+        Num::F16(a) => {
+            let (l, u) = a.log2_bounds();
+            encl_check(l, u, of_float(a)?)
+        }
+        Num::R(a) => {
+            let (l, u) = a.log2_bounds();
+            let d = log2_ubig(a.denominator());
+            encl_check(l, u, of_int(a.numerator()).map(|n| n - d))
+        }
+        Num::X(a) => {
+            let (l, u) = a.log2_bounds();
+            let d = log2_ubig(a.denominator());
+            encl_check(l, u, of_int(a.numerator()).map(|n| n - d))
+        }
+        _ => Err("bad-arg log2encl kind".into()),
+    }
+}
+
 pub fn dispatch(op: &str, args: &[&str]) -> Option<Res> {
-    if !["numcmp", "numeq", "abscmp", "abseq", "ordcmp", "numhash", "hasheq"].contains(&op) {
+    if !["numcmp", "numeq", "abscmp", "abseq", "ordcmp", "numhash", "hasheq", "log2encl"].contains(&op) {
         return None;
     }
     Some((|| -> Res {
@@ -582,6 +671,7 @@ pub fn dispatch(op: &str, args: &[&str]) -> Option<Res> {
                 let x = p_num(arg(args, 0)?)?;
                 Ok(f_feed(&numhash_all(&x)?))
             }
+            "log2encl" => log2encl(&p_num(arg(args, 0)?)?),
             "hasheq" => {
                 let x = p_num(arg(args, 0)?)?;
                 let y = p_num(arg(args, 1)?)?;
